@@ -31,6 +31,8 @@ THEOREMS = [
     "Aio.C15.conditional_precedence",
     "Aio.C15.walk_resolved",
     "Aio.C15.stat_of_resolved",
+    "Aio.C15.fixpoint_check_present",
+    "Aio.C15.confined",
     "Aio.C15.confined_partial",
     "Aio.C15.f21_symlink_loop_escapes_root",
     "Aio.C15.follow_only_via_links",
@@ -83,6 +85,10 @@ def generate(repo):
         raise RuntimeError("range pattern literal not found in BaseRequest.http_range")
     pat = m.group(1)
     ascii_flag = bool(re.search(r"re\.findall\(pattern,\s*rng,\s*re\.ASCII\)", src))
+    rsrc = inspect.getsource(wu.StaticResource._resolve_path_to_response)
+    # the F21 repair: in the non-follow branch, resolve() must be a fixpoint before relative_to()
+    m2 = re.search(r"else:\s*\n\s*file_path = unresolved_path\.resolve\(\)\n(.*?)file_path\.relative_to\(self\._directory\)", rsrc, re.S)
+    fix_flag = bool(m2 and re.search(r"if file_path\.resolve\(\) != file_path:\s*\n\s*raise ValueError", m2.group(1)))
 
     def L(s):
         return "[" + ", ".join(str(ord(c)) for c in s) + "]"
@@ -112,6 +118,8 @@ def generate(repo):
         f"def isWindows : Bool := {'true' if wu.IS_WINDOWS else 'false'}\n"
         "/-- `web_urldispatcher.CIRCULAR_SYMLINK_ERROR` is non-empty (RuntimeError from `Path.resolve` → 404) -/\n"
         f"def circularSymlinkIs404 : Bool := {'true' if wu.CIRCULAR_SYMLINK_ERROR else 'false'}\n"
+        "/-- `_resolve_path_to_response` (non-follow branch) refuses a path that `resolve()` left unresolved -/\n"
+        f"def resolveFixpointCheck : Bool := {'true' if fix_flag else 'false'}\n"
         "end Aio.Gen.C15\n")
     return {"AioModel/Generated/C15.lean": text}
 
